@@ -10,7 +10,11 @@ Variable I : st -> st -> Prop.
 Hypothesis I_refl : forall s, I s s.
 Hypothesis I_trans : forall a b c, I a b -> I b c -> I a c.
 Hypothesis I_next : forall s, I s (set_next (N.succ (s_next s)) s).        (* the only use: fresh *)
-Hypothesis I_cells : forall v s, I s (set_cells v s).
+(* cells are written in exactly two ways: a new cell under the identifier just taken from the counter, and a new
+   payload for an existing cell (name, type, constant flag and owner kept) *)
+Hypothesis I_alloc : forall c s, I s (set_cells (nm_put (s_next s) c (s_cells s)) (set_next (N.succ (s_next s)) s)).
+Hypothesis I_setval : forall id v c s, nm_get id (s_cells s) = Some c ->
+  I s (set_cells (nm_put id (mkCell (c_name c) (c_type c) (c_const c) (c_owner c) v) (s_cells s)) s).
 Hypothesis I_arrs : forall v s, I s (set_arrs v s).
 Hypothesis I_ctxs : forall v s, I s (set_ctxs v s).
 Hypothesis I_procs : forall v s, I s (set_procs v s).
@@ -79,8 +83,16 @@ Lemma Pr_get_arr id : Pr (get_arr id).
 Proof. apply Pr_same. intros s. unfold get_arr. destruct (nm_get id (s_arrs s)); reflexivity. Qed.
 Lemma Pr_get_ctx id : Pr (get_ctx id).
 Proof. apply Pr_same. intros s. unfold get_ctx. destruct (nm_get id (s_ctxs s)); reflexivity. Qed.
-Lemma Pr_put_cell id c : Pr (put_cell id c).
-Proof. apply Pr_modify. intros s. apply I_cells. Qed.
+Lemma Pr_alloc {B} (c : cell) (k : N -> M B) : (forall id, Pr (k id)) -> Pr (id <- fresh ;; put_cell id c ;;; k id).
+Proof.
+  intros Hk s. unfold bind, fresh, put_cell, modify. cbn [fst snd].
+  eapply I_trans; [apply (I_alloc c s)|]. apply Hk.
+Qed.
+Lemma Pr_set_cell_val id v : Pr (set_cell_val id v).
+Proof.
+  intros s. unfold set_cell_val, bind, get_cell. destruct (nm_get id (s_cells s)) as [c|] eqn:E; cbn [snd]; [|apply I_refl].
+  unfold put_cell, modify. cbn [snd]. apply I_setval. exact E.
+Qed.
 Lemma Pr_put_arr id c : Pr (put_arr id c).
 Proof. apply Pr_modify. intros s. apply I_arrs. Qed.
 Lemma Pr_put_ctx id c : Pr (put_ctx id c).
@@ -147,9 +159,9 @@ Qed.
 
 Ltac solve_I :=
   cbv beta;
-  first [ apply I_refl | apply I_next | apply I_cells | apply I_arrs | apply I_ctxs | apply I_procs | apply I_funcs | apply I_emit
+  first [ apply I_refl | apply I_next | apply I_arrs | apply I_ctxs | apply I_procs | apply I_funcs | apply I_emit
         | apply I_in | apply I_fs | apply I_files | apply I_steps | apply I_cellcount | apply I_depth | apply I_rand
-        | (eapply I_trans; [ | first [ apply I_next | apply I_cells | apply I_arrs | apply I_ctxs | apply I_procs | apply I_funcs | apply I_emit
+        | (eapply I_trans; [ | first [ apply I_next | apply I_arrs | apply I_ctxs | apply I_procs | apply I_funcs | apply I_emit
                                      | apply I_in | apply I_fs | apply I_files | apply I_steps | apply I_cellcount | apply I_depth | apply I_rand ] ]; solve_I) ].
 
 Ltac head_of t := match t with ?f _ => head_of f | _ => t end.
@@ -158,10 +170,11 @@ Ltac head_of t := match t with ?f _ => head_of f | _ => t end.
 Ltac pr_with known :=
   repeat first
     [ apply Pr_ret | apply Pr_failm | apply Pr_gets | apply Pr_fresh | apply Pr_get_cell | apply Pr_get_arr | apply Pr_get_ctx
-    | apply Pr_put_cell | apply Pr_put_arr | apply Pr_put_ctx | apply Pr_emit | apply Pr_runtime_error_cls
+    | apply Pr_set_cell_val | apply Pr_put_arr | apply Pr_put_ctx | apply Pr_emit | apply Pr_runtime_error_cls
     | apply Pr_lookup_def | apply Pr_root_of_aux | apply Pr_nonrec_ancestor_aux | apply Pr_on_chain_aux | apply Pr_trace_aux
     | known
     | match goal with
+      | |- Pr (bind fresh (fun id => bind (put_cell id _) _)) => apply Pr_alloc; intros ?
       | |- Pr (bind _ _) => apply Pr_bind; [ | intros ? ]
       | |- Pr (modify _) => apply Pr_modify; intros ?; solve_I
       | |- Pr (catch_cls _ _ _) => apply Pr_catch_cls; [ | intros ? ]
@@ -193,9 +206,6 @@ Lemma Pr_copy_val fuel p : Pr (copy_val fuel p).
 Proof. apply Pr_copy. Qed.
 Lemma Pr_copy_ctx fuel c : Pr (copy_ctx fuel c).
 Proof. apply Pr_copy. Qed.
-
-Lemma Pr_set_cell_val id v : Pr (set_cell_val id v).
-Proof. unfold set_cell_val. pr. Qed.
 
 Lemma Pr_copy_go (sc : N -> payload -> M unit) : (forall d p, Pr (sc d p)) -> forall l1 l2,
   Pr ((fix go (l1 l2 : list N) : M unit :=
